@@ -1,6 +1,8 @@
 package ha
 
-// NOTE: part (2) was repaired by d51cde6 and no longer reproduces; part (1) still does.
+// HISTORICAL: written against the code before d51cde6 (part 2) and 9375239 (part 1), when
+// executeFailover had no generation parameter; it does not compile against the current tree
+// (check out c585738 to reproduce). Both parts are now watched by spec/bounded/ha_failover_*.go.
 // Replays for two C14 findings made by inspection while writing the contracts; the
 // contracts leave timer semantics (time.AfterFunc firing vs. Stop) undecided, so there is
 // no obligation id. In both, the callback body of a time.AfterFunc timer that has already
